@@ -445,6 +445,8 @@ func c09UrlImpl(f []string) string {
 		return strings.Join(out, ",")
 	}
 	switch f[1] {
+	case "ck":
+		return "impl=" + dialect.Hx(http.CanonicalHeaderKey(dialect.UnHx(f[2])))
 	case "pe":
 		return "impl=" + dialect.Hx(url.PathEscape(dialect.UnHx(f[2])))
 	case "qe":
@@ -496,6 +498,18 @@ func c09UrlLines(rng *rand.Rand, thorough bool) []string {
 		s := string([]byte{byte(b)})
 		out = append(out, "UE pe "+dialect.Hx(s), "UE qe "+dialect.Hx(s), "UE pu "+dialect.Hx(s), "UE qu "+dialect.Hx(s),
 			"UE pu "+dialect.Hx("%"+s+"0"), "UE qu "+dialect.Hx("%4"+s), "UE pq "+dialect.Hx("a"+s+"b=c"+s+"d"))
+	}
+	// header names for http.CanonicalHeaderKey: token and non-token bytes, hyphens at every place, mixed case
+	hatoms := []string{"x", "X", "-", "--", "api", "KEY", "Id", "9", "_", ".", " ", ":", "é", "~", "!", "(", "\x00", "Uuid", "a-b"}
+	for b := 0; b < 256; b++ {
+		out = append(out, "UE ck "+dialect.Hx("a"+string([]byte{byte(b)})+"b"), "UE ck "+dialect.Hx(string([]byte{byte(b)})+"x"))
+	}
+	for i := 0; i < n; i++ {
+		var b strings.Builder
+		for k := rng.Intn(6); k >= 0; k-- {
+			b.WriteString(hatoms[rng.Intn(len(hatoms))])
+		}
+		out = append(out, "UE ck "+dialect.Hx(b.String()))
 	}
 	atoms := []string{"a", "Z", "0", "-", "_", ".", "~", "$", "&", "+", ",", "/", ":", ";", "=", "?", "@", "%", " ", "#", "\"", "<", "\x00", "\n", "\xc3\xa9", "\xff", "%2F", "%zz", "%4", "%", "%41", "+", "&&", "=="}
 	text := func(k int) string {
